@@ -14,6 +14,12 @@ privilege did not grant the rest; 06df506: NewUser kept one of several grants th
 chosen by map iteration order); their counterexamples on the OLD code stay here as theorems
 (`authorizedOld_refuses_all_plus_other`, `newUserOld_order_dependent`), the model follows the repaired code.
 
+HTTP depth: `served_resource_below_api` (what is served was authorised below "/api": route pattern shapes of the
+regenerated table + what `AddRoute` can register), `resource_escapes_only_behind_v1_dotdot` / `escaping_urls_reach_only_404`
+(exactly which clean URL paths leave "/api", and that only the 404 catch-all matches them),
+`encoded_traversal_never_served` (raw request targets: one pass of percent-decoding in front of mux AND authorisation).
+Byte level (strings that are not valid UTF-8): second props module `Kap.Props.C20Bytes`.
+
 All theorems quantify over ALL strings, tables, accounts, requests (no size bound). The last clause is FALSE of
 the code (finding `db-collision`): the full statement is `database_resource_injective_stmt`, its negation is
 proved (`database_resource_not_injective`), the collisions are characterised exactly
